@@ -2,6 +2,7 @@
 from pbt import standins
 
 handler = None  # callable(cdb, dataout, datain) -> (status, sense-bytes-or-None)
+routes = {}  # url -> handler (takes precedence over the global handler)
 connect_error = None  # exception instance to raise from connect (fault injection)
 
 SCSI_XFER_NONE = 0
@@ -47,10 +48,14 @@ class Context(object):
                              None if data_in is None else len(data_in)))
         if self.disconnected or not self.connected:
             raise RuntimeError("iscsi context is not connected")
-        if handler is None:
+        h = routes.get(getattr(self, "url", None))
+        if h is not None:
+            status, sense = h(task.cdb, data_out, data_in)
+        elif handler is None:
             task.status = 0
             return
-        status, sense = handler(task.cdb, data_out, data_in, task=task)
+        else:
+            status, sense = handler(task.cdb, data_out, data_in, task=task)
         task.status = status
         if status == 0x02:
             task.raw_sense = bytes(sense or b"")
@@ -60,6 +65,7 @@ class URL(object):
     def __init__(self, context, url):
         standins.LOG.append(("iscsi.URL", id(context), url))
         self.url = url
+        context.url = url
         rest = url[len("iscsi://"):] if url.startswith("iscsi://") else url
         parts = rest.split("/")
         self.portal = parts[0] if parts else ""
